@@ -67,11 +67,20 @@ def run(prop, tier, replay=None):
     if mc["violated"]:
         path = vlib.save_replay(prop, "model_" + mc["violated"], dict(kind="model", invariant=mc["violated"], tlc_tail=mc["out"][-6000:]))
         violations.append(("model invariant %s violated" % mc["violated"], path))
+    replay_proc = None
     if replay:
         with open(replay) as f:
-            scripts = [json.load(f)["script"]]
+            rp = json.load(f)
+        if rp.get("kind") == "proc-trace":
+            replay_proc, scripts = rp["script"], []
+        else:
+            scripts = [rp["script"]]
     else:
         scripts = scripts_for(prop, tier, rng)
+        reg = os.path.join(os.path.dirname(os.path.abspath(__file__)), "work_regress_%s.ndjson" % prop)
+        if os.path.exists(reg):
+            with open(reg) as f:
+                scripts += [json.loads(ln) for ln in f if ln.strip()]
     by_id = {s["id"]: s for s in scripts}
     tp = run_driver(scripts, "drv_" + prop)
     acc, rej, stats, total = vlib.validate_traces(tr_module, cfg, tp, "val_" + prop, shards=12)
@@ -85,6 +94,18 @@ def run(prop, tier, replay=None):
                            % (sid, r.get("why") or "trace is not a behaviour of ActionWorker", r["line"],
                               r["event"]["e"], r["event"].get("id")), path))
     extra = {}
+    if prop == "C08" and not (replay and not replay_proc):
+        # the clause about processes (process groups, grandchildren, commands ignoring the signal):
+        # a real Watchexec with real commands, validated against ProcQuit.tla
+        import proccheck
+        pviol, extra, pmc, pstats = proccheck.run(prop, tier, rng, replay_proc)
+        violations += pviol
+        stats["distinct"] += pstats["distinct"]
+        stats["generated"] += pstats["generated"]
+        mc["distinct"] += pmc["distinct"]
+        mc["generated"] += pmc["generated"]
+        acc += extra["real_process_accepted"]
+        total += extra["real_process_scripts"]
     if prop == "C15" and not replay:
         # the clause about errors raised from the watcher's own callback (event-queue overflow, unreadable
         # events): the real fs worker with a fake watcher whose callback fires bursts against a small queue
@@ -114,6 +135,7 @@ def run(prop, tier, replay=None):
     coverage = dict(
         states=mc["distinct"] + stats["distinct"], transitions=mc["generated"] + stats["generated"],
         model_states=mc["distinct"], model_transitions=mc["generated"], trace_states=stats["distinct"],
+        spec_expressions_not_evaluated_on_traces=sorted(stats.get("uncovered") or []),
         traces_validated_against_impl=acc, evaluations=total, distinct_nontrivial=len(distinct),
         rule=RULE[prop], exhaustive=False, samples=samples,
         checker_cmd="tlc %s -config %s ; worker_driver ; tlc %s -config %s (per shard)" % (mc_module, mc_cfg, tr_module, cfg),
